@@ -13,7 +13,7 @@ Wraps == CASE Ctx = "bare" -> <<"bare">>
 
 BAsts0 == {x.a : x \in {y \in WTUpTo(MaxNodes) : y.t.b = "B" /\ KeyCanonical(y.a)}}
 
-BAstsA == BAsts0 \cup CompKept \cup Comp2Kept \cup PrefixedKept \cup NestedChoice(NCKeep, CompSeed) \cup {x \in ThreshMix(NCKeep) : TypeOf(x, Ctx).b = "B"}
+BAstsA == BAsts0 \cup CompKept \cup Comp2Kept \cup PrefixedKept \cup NestedChoice(NCKeep, CompSeed) \cup {x \in ThreshMix(NCKeep) : TypeOf(x, Ctx).b = "B"} \cup CostMix(NCKeep)
 
 \* every fragment with a hash leaf also with another hash kind
 BAsts == BAstsA \cup {a \in HashSwapped(BAstsA) : TypeOf(a, Ctx).ok}
